@@ -1,7 +1,288 @@
-"""C10 `string`: escape processing and UTF-8 encoding run through C codecs, which CrossHair
-realises; the condition can find counterexamples (it found the mojibake defect in 2 s) but
-cannot confirm, so the string sub-claim is bug-hunting only and is reported as such."""
-from . import xhair
+"""C10 `string`: 'emits the UTF-8 encoding of its text after backslash-escape processing'.
+
+The text after ``string `` is a sequence of symbolic code points (shapes below fix some of them,
+e.g. a leading backslash, so that the long escapes stay within reach).  The real lexer, parser and
+string pass run on it (symx.symstr supplies the codec and regex models); an independent
+character-level reference (escape grammar of the Python language reference + RFC 3629) is
+evaluated on the same path and the solver is asked for a text on which the two differ.
+Witnesses and counterexamples are replayed on the pristine code with CPython's real codecs.
+
+The CrossHair condition (string_plain, no backslashes) is kept as a second, bug-hunting-only
+engine."""
+import z3
+
+from symx import core, asmshim, symstr
+from symx.core import SymInt, SymBool, And, Or, Not
+from symx.symstr import SymStr
+from symx.symbytes import SymBytes
+from . import common, xhair
+from .common import TaskResult
+
+S = None     # a symbolic character (any code point a line of a UTF-8 file can hold)
+A = 'ascii'  # a symbolic ASCII character (the digit positions of the long escapes)
+
+#: name -> (line prefix, slots after the prefix)
+SHAPES_QUICK = {
+    'any1': ('string ', [S]),
+    'any2': ('string ', [S, S]),
+    'any3': ('string ', [S, S, S]),
+    'bs3': ('string ', ['\\', S, S, S]),
+    'x2_1': ('string ', ['\\', 'x', S, S, S]),
+    'u4': ('string ', ['\\', 'u', A, A, A, A]),
+    'U8': ('string ', ['\\', 'U', A, A, A, A, A, A, A, A]),
+    'mid_x': ('string ', [S, '\\', 'x', S, S]),
+    'oct_then': ('string ', ['\\', A, A, A, S]),
+    'indent_any2': (' \tstring ', [S, S]),
+    'tail_bs': ('string ', [S, S, '\\']),
+    'two_escapes': ('string ', ['\\', S, '\\', S]),
+    'quote_hash': ('string ', ["'", S, "'", ' ', '#', S]),
+    'wide_bs_wide': ('string ', [S, '\\', '\\', S]),
+}
+SHAPES_THOROUGH = dict(SHAPES_QUICK, **{
+    'any4': ('string ', [S, S, S, S]),
+    'bs4': ('string ', ['\\', S, S, S, S]),
+    'u4_any': ('string ', ['\\', 'u', S, S, S, S]),
+    'u4_1': ('string ', ['\\', 'u', A, A, A, A, S]),
+    'any_u4': ('string ', [S, '\\', 'u', A, A, A, A]),
+    'U8_1': ('string ', ['\\', 'U', A, A, A, A, A, A, A, A, S]),
+    'x_x': ('string ', ['\\', 'x', A, A, '\\', 'x', A, A]),
+    'bs_runs': ('string ', ['\\', '\\', '\\', S, '\\', S]),
+})
+
+
+# ---------------------------------------------------------------------------
+# reference: escape grammar (Python language reference, 'String and Bytes literals' escape
+# table, as implemented for text by the unicode_escape codec) and UTF-8 (RFC 3629)
+# ---------------------------------------------------------------------------
+ONE_CHAR = {ord('\\'): 0x5c, ord("'"): 0x27, ord('"'): 0x22, ord('a'): 0x07, ord('b'): 0x08, ord('f'): 0x0c,
+            ord('n'): 0x0a, ord('r'): 0x0d, ord('t'): 0x09, ord('v'): 0x0b}
+HEX_LEN = {ord('x'): 2, ord('u'): 4, ord('U'): 8}
+
+
+def _digit(c, base):
+    """numeric value of character c in the base, or None (a single decision, then arithmetic)"""
+    dec = And(c >= ord('0'), c <= (ord('7') if base == 8 else ord('9')))
+    low = And(c >= ord('a'), c <= ord('f')) if base == 16 else False
+    up = And(c >= ord('A'), c <= ord('F')) if base == 16 else False
+    if not Or(dec, low, up):
+        return None
+    return core.ite(dec, c - ord('0'), core.ite(low, c - ord('a') + 10, c - ord('A') + 10))
+
+
+def _one_char(e):
+    if not Or(*[e == k for k in ONE_CHAR]):
+        return None
+    items = list(ONE_CHAR.items())
+    r = items[-1][1]
+    for k, v in items[:-1]:
+        r = core.ite(e == k, v, r)
+    return r
+
+
+def ref_unescape(text):
+    """list of code points the escaped text denotes, or None when an escape is malformed"""
+    out = []
+    rest = list(text)
+    while rest:
+        c = rest.pop(0)
+        if not (c == 0x5c):
+            out.append(c)
+            continue
+        if not rest:
+            return None                         # a backslash with nothing behind it
+        e = rest.pop(0)
+        hit = _one_char(e)
+        if hit is not None:
+            out.append(hit)
+            continue
+        d = _digit(e, 8)
+        if d is not None:                       # \o \oo \ooo
+            val = d
+            for _ in range(2):
+                if not rest:
+                    break
+                d = _digit(rest[0], 8)
+                if d is None:
+                    break
+                val = val * 8 + d
+                rest.pop(0)
+            out.append(val)
+            continue
+        width = None
+        for k, v in HEX_LEN.items():
+            if e == k:
+                width = v
+                break
+        if width is not None:                   # \xhh \uhhhh \Uhhhhhhhh: exactly that many hex digits
+            if len(rest) < width:
+                return None
+            val = 0
+            for _ in range(width):
+                d = _digit(rest.pop(0), 16)
+                if d is None:
+                    return None
+                val = val * 16 + d
+            if val > 0x10ffff:
+                return None
+            out.append(val)
+            continue
+        # any other character: not an escape, the backslash is kept (\N{...} is excluded by the harness)
+        out.append(0x5c)
+        out.append(e)
+    return out
+
+
+def ref_utf8(cps):
+    """RFC 3629 byte sequence, or None for a surrogate code point"""
+    out = []
+    for cp in cps:
+        if cp <= 0x7f:
+            out.append(cp)
+        elif cp <= 0x7ff:
+            out += [0xc0 + cp // 64, 0x80 + cp % 64]
+        elif cp <= 0xffff:
+            if cp >= 0xd800 and cp <= 0xdfff:
+                return None
+            out += [0xe0 + cp // 4096, 0x80 + (cp // 64) % 64, 0x80 + cp % 64]
+        else:
+            out += [0xf0 + cp // 262144, 0x80 + (cp // 4096) % 64, 0x80 + (cp // 64) % 64, 0x80 + cp % 64]
+    return out
+
+
+def reference(text):
+    u = ref_unescape(text)
+    return None if u is None else ref_utf8(u)
+
+
+def _z(v, w=24):
+    if isinstance(v, SymInt):
+        return core._sx(v.e, w) if v.e.size() < w else z3.Extract(w - 1, 0, v.e)
+    return z3.BitVecVal(v, w)
+
+
+# ---------------------------------------------------------------------------
+def symstring_task(shape, prefix, slots):
+    res = TaskResult('string:%s' % shape)
+    prof = common.FuncProfile()
+    x = core.Explorer(timeout_ms=120000, max_paths=60000)
+    asm = asmshim.load_asm_shimmed()
+    asm.re = symstr.ReProxy()
+    real = asmshim.load_asm_pristine()
+    nsym = sum(1 for s in slots if s is S or s == A)
+    ascii_only = [k for k, s in enumerate(x for x in slots if x is S or x == A) if s == A]
+    n_ok = n_ref = n_mal = 0
+
+    def text_of(p):
+        chars = symstr.sym_chars(p, nsym, ascii_only=ascii_only)
+        it = iter(chars)
+        return [next(it) if (s is S or s == A) else ord(s) for s in slots]
+
+    def fn(p):
+        text = text_of(p)
+        # \N{name} needs the Unicode name database: outside the claim
+        for a, b in zip(text, text[1:]):
+            p.assume(Not(And(a == 0x5c, b == ord('N'))))
+        p.notes['text'] = text
+        p.notes['want'] = reference(text)          # forks: the reference partitions the texts first
+        with prof:
+            line = asm.Line('<string>', 1, SymStr([ord(ch) for ch in prefix] + text))
+            item = asm.parse_item(asm.lex_tokens(line))
+            size = item.size()
+            blob = asm.resolve_strings([item])[0]
+            return size, blob.data
+
+    def concrete_text(p, mdl):
+        return ''.join(chr(core.concrete(c, mdl)) for c in p.notes['text'])
+
+    def real_outcome(txt):
+        labels = {}
+        try:
+            out = real.assemble(prefix + txt + '\nL1:\n', labels=labels)
+            return ('ok', bytes(out), labels.get('L1'))
+        except Exception as e:        # noqa: the real code's refusal
+            return ('exc', type(e).__name__, str(e).splitlines()[-1][:200])
+
+    def concrete_ok(txt):
+        want = reference([ord(ch) for ch in txt])
+        r = real_outcome(txt)
+        if want is None:
+            return True, r, want          # malformed escape: nothing is documented, nothing demanded
+        return r[0] == 'ok' and r[1] == bytes(want) and r[2] == len(want), r, want
+
+    def violation(kind, p, mdl, what):
+        txt = concrete_text(p, mdl)
+        ok, r, want = concrete_ok(txt)
+        if ok:
+            res.inconc('string %s: counterexample %r for %s did not reproduce on the real code' % (shape, txt, kind))
+            return
+        detail = '%s; text %r: documented %s, real code %s' % (what, txt, 'refusal (malformed escape)' if want is None else bytes(want).hex(),
+                                                                 r[1].hex() + ' L1=%r' % (r[2],) if r[0] == 'ok' else r[1:])
+        path = common.write_replay('C10', 'string_%s_%s' % (shape, kind), dict(
+            kind='program', property='C10', source=prefix + txt + '\nL1:\n', constants={}, what=detail))
+        res['violations'].append(dict(harness='string', shape=shape, kind=kind, inputs=dict(text=txt), what=detail, replay=path))
+        res.oblig(False)
+
+    for p, kind, val in x.run(fn):
+        if kind == 'limit':
+            res.inconc('string %s: engine limit: %s' % (shape, val))
+            continue
+        model = p.witness()
+        txt = concrete_text(p, model)
+        r = real_outcome(txt)
+        if kind == 'ok':
+            size, data = val
+            symc = ('ok', symbytes_concrete(data, model), core.concrete(size, model))
+        else:
+            symc = ('exc', type(val).__name__)
+        if symc[0] != r[0] or (symc[0] == 'ok' and (symc[1] != r[1] or symc[2] != r[2])):
+            res.inconc('string %s: witness replay mismatch for %r: symbolic %r, real %r (codec / regex model wrong)' % (shape, txt, symc, r))
+            continue
+        res['validated'] += 1
+        want = p.notes.get('want', 'unset')
+        if want == 'unset':
+            res.inconc('string %s: reference not evaluated' % shape)
+            continue
+        if len(res['samples']) < 2:
+            res['samples'].append(dict(source=prefix + txt, outcome=[r[0], r[1].hex() if r[0] == 'ok' else r[1]]))
+        if want is None:
+            n_mal += 1                      # malformed escape: outside the claim
+            continue
+        if kind == 'exc':
+            n_ref += 1
+            violation('refuses-wellformed', p, model, 'a well-formed string was refused (%s)' % type(val).__name__)
+            continue
+        n_ok += 1
+        size, data = val
+        got = symstr._byte_values(data)
+        if len(got) != len(want) or not isinstance(size, int) or size != len(got):
+            violation('length', p, model, 'emitted %d bytes, size() says %r, documented %d' % (len(got), size, len(want)))
+            continue
+        diff = [_z(g) != _z(w) for g, w in zip(got, want)]
+        rr, mdl = p.sat(SymBool(z3.Or(*diff))) if diff else ('unsat', None)
+        if rr == 'sat':
+            violation('wrong-bytes', p, mdl, 'emitted bytes differ from the UTF-8 encoding of the unescaped text')
+        else:
+            res.oblig(True if rr == 'unsat' else None, 'unknown string bytes %s' % shape)
+    if n_ok == 0:
+        res['vacuity'].append('string %s: no accepting path' % shape)
+    res['notes'].append('string %s: %d accepting paths compared, %d refusals of well-formed text, %d paths with a malformed escape (outside the claim)' % (shape, n_ok, n_ref, n_mal))
+    if x.truncated:
+        res.inconc('string %s: path budget exhausted' % shape)
+    res.absorb_stats(x.stats)
+    res['functions'] = prof.names()
+    return res
+
+
+def symbytes_concrete(data, model):
+    out = bytearray()
+    for v in symstr._byte_values(data):
+        out.append(core.concrete(v, model) & 0xff)
+    return bytes(out)
+
+
+def string_specs(tier):
+    shapes = SHAPES_THOROUGH if tier == 'thorough' else SHAPES_QUICK
+    return [('harness.strings', 'symstring_task', (name, pre, slots)) for name, (pre, slots) in shapes.items()]
 
 
 def string_task(tier):
